@@ -38,6 +38,10 @@ func verifyFunc(prog *ssa.Program, specs *SpecDB, fn *ssa.Function, opts verifyO
 	e.curFunc = funcFull(fn)
 	e.nopanic = opts.nopanic
 	e.lockDiscipline = opts.lockDiscipline
+	e.callPolicy = opts.callPolicy
+	if opts.lockOnly {
+		e.callPolicy = "lock"
+	}
 	defer func() {
 		if r := recover(); r != nil {
 			if te, ok := r.(toolError); ok {
@@ -75,6 +79,41 @@ func verifyFunc(prog *ssa.Program, specs *SpecDB, fn *ssa.Function, opts verifyO
 		c := e.declConst("fv$"+sanitize(fv.Name()), e.sortOf(fv.Type()))
 		f.vals[fv] = Val{T: c}
 	}
+	var lockObjs []*LVal
+	if opts.lockDiscipline {
+		// lock discipline: every guarded mutex is free at entry, except the receiver's for functions annotated lockheld
+		for _, gs := range specs.guards {
+			for _, p := range prog.AllPackages() {
+				if p.Pkg.Path() != gs.Pkg {
+					continue
+				}
+				tn, ok := p.Members[gs.Struct].(*ssa.Type)
+				if !ok {
+					continue
+				}
+				ptrT := types.NewPointer(tn.Type())
+				anyObj := Val{T: "r!lk"}
+				held := f.mutexHeld(f.mutexOf(anyObj, ptrT, gs))
+				cond := "true"
+				if sp != nil && sp.LockHeld {
+					for i, prm := range fn.Params {
+						if e.guardOf(prm.Type()) == gs {
+							cond = not(eq("r!lk", args[i].T))
+							e.assume(not(eq(f.loadLV(st, f.mutexHeld(f.mutexOf(args[i], prm.Type(), gs))), "0")))
+							break
+						}
+					}
+				}
+				e.assume(fmt.Sprintf("(forall ((r!lk Int)) (! (=> %s (= %s 0)) :pattern (%s) :qid mutex_free_at_entry))", cond, f.loadLV(st, held), sel(st.H(held.Heap), "r!lk")))
+				for i, prm := range fn.Params {
+					if e.guardOf(prm.Type()) == gs {
+						lockObjs = append(lockObjs, f.mutexHeld(f.mutexOf(args[i], prm.Type(), gs)))
+					}
+				}
+			}
+		}
+	}
+	f.lockObjs = lockObjs
 	entry := st.clone()
 	// package-level facts (variables initialised once by package init and never reassigned)
 	for _, gs := range specs.globals {
@@ -98,7 +137,9 @@ func verifyFunc(prog *ssa.Program, specs *SpecDB, fn *ssa.Function, opts verifyO
 		if mods == nil {
 			mods = []modEntry{}
 		}
-		f.mods = mods
+		if !sp.Partial {
+			f.mods = mods
+		}
 		f.oblige("vacuity", funcDisplay(fn)+":requires-satisfiable", "true", "false", "requires clauses are jointly satisfiable", nil, token.NoPos)
 		e.obls[len(e.obls)-1].Expect = "notunsat"
 	}
@@ -121,6 +162,9 @@ func verifyFunc(prog *ssa.Program, specs *SpecDB, fn *ssa.Function, opts verifyO
 			}
 			// frame
 			for _, h := range sortedKeys(r.st.heap) {
+				if sp.Partial {
+					break
+				}
 				ff := f.frameFact(h, mods, entry, r.st, "alloc!0")
 				f.oblige("frame", fmt.Sprintf("%s:frame[%s]@ret%d", fname, h, r.idx+1), r.guard, ff, "only locations in the modifies clause change in heap "+h, nil, r.pos)
 			}
@@ -147,6 +191,14 @@ func verifyFunc(prog *ssa.Program, specs *SpecDB, fn *ssa.Function, opts verifyO
 	} else {
 		rep.Status = "safety-only"
 	}
+	if opts.lockDiscipline {
+		for _, r := range f.rets {
+			f.curBlock = r.block
+			for k, lo := range lockObjs {
+				f.oblige("lock", fmt.Sprintf("%s:lock-restored#%d@ret%d", fname, k+1, r.idx+1), r.guard, eq(f.loadLV(r.st, lo), f.loadLV(entry, lo)), "the mutex is in the same state at return as at entry", []string{"C11"}, r.pos)
+			}
+		}
+	}
 	rep.Obls = e.obls
 	for n := range e.notes {
 		rep.Notes = append(rep.Notes, n)
@@ -161,6 +213,7 @@ type verifyOpts struct {
 	property       string
 	safetyOnly     bool
 	lockOnly       bool
+	callPolicy     string
 }
 
 func sortedKeys(m map[string]string) []string {
